@@ -1581,3 +1581,168 @@ Proof.
   split; [|apply canon_cont_nonempty; exact H2].
   rewrite (Ho w first conts eq_refl). apply fmt_tokens_value_text; assumption.
 Qed.
+
+(* ---------------------------------------------------------------- assembling the document-level statements *)
+Definition doc_fields_ok (fmt : option (str -> str -> str)) (l : ldocl) : Prop :=
+  forall its f, In (LPara its) l -> In (IField f) its -> field_ok fmt f.
+Definition doc_shaped (fmt : option (str -> str -> str)) (l : ldocl) : Prop :=
+  forall its f, In (LPara its) l -> In (IField f) its -> fmt_shaped_on fmt f = true.
+
+Lemma lwf_para_wf l : forall its, lwf l = true -> In (LPara its) l -> exists m, wf_items its m = true.
+Proof.
+  induction l as [|b r IH]; intros its Hl Hin; [contradiction|]. rewrite lwf_cons in Hl.
+  apply andb_true_iff in Hl. destruct Hl as [Hb Hr]. destruct Hin as [->|Hin]; [|apply IH; assumption].
+  apply andb_true_iff in Hb. destruct Hb as [Hi _]. eexists; exact Hi.
+Qed.
+
+Lemma wf_field_ok fmt f m : wf_field f m = true -> fmt_shaped_on fmt f = true -> field_ok fmt f.
+Proof.
+  intros Hwf Hs. destruct (wf_field_parts f m Hwf) as (Hn & _ & _ & Hc). split; [|split].
+  - destruct (f_name f); [discriminate|discriminate].
+  - unfold conts_nonempty. apply canon_cont_nonempty in Hc. clear - Hc.
+    induction (f_cont f) as [|x r IH]; [reflexivity|]. cbn [map forallb] in *. apply andb_true_iff in Hc. destruct Hc as [H1 H2].
+    rewrite H1, (IH H2). reflexivity.
+  - apply shaped_lexes. exact Hs.
+Qed.
+
+Lemma lwf_fields_ok fmt l : lwf l = true -> doc_shaped fmt l -> doc_fields_ok fmt l.
+Proof.
+  intros Hl Hs its f Hi Hf. destruct (lwf_para_wf l its Hl Hi) as [m Hm].
+  destruct (wf_items_In its m f Hm Hf) as [m' Hm']. apply (wf_field_ok fmt f m' Hm'). apply (Hs its f Hi Hf).
+Qed.
+
+Section Top.
+  Variable c : wcfg.
+  Variable psort : option (tree -> tree -> comparison).
+  Variable pcmp : option para_cmp.
+  Variable esort : option (tree -> tree -> comparison).
+  Variable ecmp : option pair_cmp.
+  Variable fmt : option (str -> str -> str).
+
+  (* Deb822::wrap_and_sort(sort_paragraphs, |p| p.wrap_and_sort(indentation, immediate_empty_line,
+     max_line_length_one_liner, sort_entries, format_value)) *)
+  Definition std_ws (t : tree) : res tree :=
+    doc_ws fixed psort (Some (para_ws fixed (c_ind c) (c_iel c) (c_mll c) esort (option_map pure_fmt fmt))) t.
+  Definition a_std (l : ldocl) : ldocl := a_ws_doc pcmp (a_ws_items c ecmp fmt) l.
+
+  Hypothesis Hind : ind_ok c = true.
+  Hypothesis Hp : pcmp_agrees psort pcmp.
+  Hypothesis He : ecmp_agrees esort ecmp.
+
+  Theorem std_ws_commute l : doc_fields_ok fmt l -> std_ws (ltree_of l) = Ok (ltree_of (a_std l)).
+  Proof.
+    intros Hok. apply doc_ws_blocks; [exact Hp|]. intros its Hi. unfold pfun_agrees. cbn [lblock_tree].
+    apply para_ws_items; [exact Hind|exact He|]. intros f Hf. apply (Hok its f Hi Hf).
+  Qed.
+
+  Lemma In_ungroup gs tr f : In (IField f) (ungroup gs tr) -> exists g, In g gs /\ f = snd g.
+  Proof.
+    unfold ungroup. intros H. apply in_app_or in H. destruct H as [H|H].
+    - apply in_flat_map in H. destruct H as (g & Hg & H). exists g. split; [exact Hg|].
+      apply in_app_or in H. destruct H as [H|[H|[]]]; [|injection H as <-; reflexivity].
+      apply in_map_iff in H. destruct H as (x & Hx & _). discriminate.
+    - apply in_map_iff in H. destruct H as (x & Hx & _). discriminate.
+  Qed.
+
+  Lemma In_a_ws_items its f : In (IField f) (terminate_last (a_ws_items c ecmp fmt its)) ->
+    exists f0, In (IField f0) its /\ f = a_ws_field c fmt f0.
+  Proof.
+    unfold a_ws_items. pose proof (group_items_In its []) as HIn. destruct (group_items its []) as [gs tr]. cbn [fst] in HIn.
+    rewrite terminate_last_ungroup.
+    - intros H. apply In_ungroup in H. destruct H as (g & Hg & ->). apply in_map_iff in Hg. destruct Hg as (g0 & <- & Hg0).
+      exists (snd g0). split; [apply HIn; apply (sort_opt_In _ _ _ Hg0)|reflexivity].
+    - intros g Hg. apply in_map_iff in Hg. destruct Hg as (g0 & <- & _). apply a_ws_field_nl.
+  Qed.
+
+  Lemma In_emit_blocks G : forall first x, In (LPara x) (emit_blocks first G) -> exists g, In g G /\ x = snd g.
+  Proof.
+    induction G as [|g r IH]; intros first x H; [contradiction|]. rewrite emit_blocks_cons in H.
+    apply in_app_or in H. destruct H as [H|H].
+    - exfalso. apply in_app_or in H. destruct H as [H|H]; [destruct first; [contradiction|destruct H as [H|[]]; discriminate]|].
+      apply in_map_iff in H. destruct H as (y & Hy & _). discriminate.
+    - apply in_app_or in H. destruct H as [[H|[]]|H]; [injection H as <-; exists g; split; [left|]; reflexivity|].
+      destruct (IH false x H) as (g' & Hg' & ->). exists g'. split; [right; exact Hg'|reflexivity].
+  Qed.
+
+  Lemma In_a_ws_doc pf l x : In (LPara x) (a_ws_doc pcmp pf l) ->
+    exists its, In (LPara its) l /\ x = terminate_last (pf its).
+  Proof.
+    unfold a_ws_doc. pose proof (group_blocks_In l []) as HIn. destruct (group_blocks l []) as [gs tr]. cbn [fst] in HIn.
+    rewrite terminate_doc_emit_comments.
+    - intros H. apply in_app_or in H. destruct H as [H|H].
+      + apply In_emit_blocks in H. destruct H as (g & Hg & ->). apply in_map_iff in Hg. destruct Hg as (g0 & <- & Hg0).
+        exists (snd g0). split; [apply HIn; apply (sort_opt_In _ _ _ Hg0)|reflexivity].
+      + apply in_map_iff in H. destruct H as (y & Hy & _). discriminate.
+    - intros g Hg. apply in_map_iff in Hg. destruct Hg as (g0 & <- & _). apply terminate_last_idem.
+  Qed.
+
+  Lemma conts_nonempty_rebuild name w first conts : forallb nonempty_line conts = true ->
+    conts_nonempty (rebuild_field c name w first conts) = true.
+  Proof.
+    intros Hne. unfold conts_nonempty, rebuild_field.
+    assert (H : forall ls, forallb nonempty_line ls = true ->
+                forallb (fun ct : str * str => nonempty_line (snd ct)) (indent_lines (width c name) ls) = true).
+    { intros ls Hl. unfold indent_lines. induction ls as [|t r IH]; [reflexivity|]. cbn [map forallb snd] in *.
+      apply andb_true_iff in Hl. destruct Hl as [H1 H2]. rewrite H1, (IH H2). reflexivity. }
+    destruct (fits c name w first && is_nil conts); [reflexivity|].
+    destruct (value_lines first conts) as [|l1 rest] eqn:El; [reflexivity|].
+    pose proof (value_lines_head_nonempty first conts l1 rest Hne El) as Hl1.
+    assert (Hrest : forallb nonempty_line rest = true).
+    { unfold value_lines in El. destruct first; [subst conts; cbn [forallb] in Hne; apply andb_true_iff in Hne; apply Hne|].
+      injection El as _ <-. exact Hne. }
+    destruct (c_iel c && negb (is_nil conts) && negb (starts_with_hash l1)); cbn [f_cont]; apply H; [|exact Hrest].
+    cbn [forallb]. rewrite Hrest, andb_true_r. destruct l1; [contradiction|reflexivity].
+  Qed.
+
+  (* the fields of the result are again fields the transcription handles *)
+  Lemma fields_ok_a_std l : doc_fields_ok fmt l ->
+    (forall its f, In (LPara its) l -> In (IField f) its -> fmt_lexes fmt (a_ws_field c fmt f)) ->
+    doc_fields_ok fmt (a_std l).
+  Proof.
+    intros Hok Hlex x f Hx Hf. unfold a_std in Hx. apply In_a_ws_doc in Hx. destruct Hx as (its & Hi & ->).
+    apply In_a_ws_items in Hf. destruct Hf as (f0 & Hf0 & ->). destruct (Hok its f0 Hi Hf0) as (Hn & Hc & Hl).
+    split; [|split; [|apply (Hlex its f0 Hi Hf0)]].
+    - unfold a_ws_field. destruct fmt as [g|]; [|rewrite rebuild_field_name; exact Hn].
+      destruct (parse_value (g (f_name f0) (value_text (field_ws0 f0) (f_first f0) (map snd (f_cont f0))))) as [[w first] conts].
+      rewrite rebuild_field_name. exact Hn.
+    - unfold a_ws_field. destruct fmt as [g|]; [|apply conts_nonempty_rebuild; apply conts_nonempty_map; exact Hc].
+      cbn [fmt_lexes] in Hl. cbv zeta in Hl.
+      destruct (parse_value (g (f_name f0) (value_text (field_ws0 f0) (f_first f0) (map snd (f_cont f0))))) as [[w first] conts].
+      apply conts_nonempty_rebuild. apply Hl.
+  Qed.
+
+  (* a second application changes nothing *)
+  Definition stable_on (l : ldocl) : Prop :=
+    forall its f, In (LPara its) l -> In (IField f) its ->
+      field_stable c fmt f /\ fmt_lexes fmt (a_ws_field c fmt f).
+  Definition ecmp_invariant_on (l : ldocl) : Prop :=
+    forall its f g, In (LPara its) l -> In (IField f) its -> In (IField g) its ->
+      match ecmp with Some e => e (a_pair fmt f) (a_pair fmt g) = e (field_pair f) (field_pair g) | None => True end.
+  Definition pcmp_invariant_on (l : ldocl) : Prop :=
+    forall a b, In (LPara a) l -> In (LPara b) l ->
+      match pcmp with
+      | Some p => p (spec_para ecmp fmt a) (spec_para ecmp fmt b) = p (flat_map item_pairs a) (flat_map item_pairs b)
+      | None => True
+      end.
+
+  Theorem a_std_idem l : doc_fields_ok fmt l -> stable_on l ->
+    pair_cmp_consistent ecmp -> para_cmp_consistent pcmp -> ecmp_invariant_on l -> pcmp_invariant_on l ->
+    a_std (a_std l) = a_std l.
+  Proof.
+    intros Hok Hst Hce Hcp Hie Hip. unfold a_std. apply a_ws_doc_idem; [exact Hcp| |].
+    - intros a b Ha Hb. specialize (Hip a b Ha Hb). destruct pcmp as [p|]; [|exact I].
+      rewrite !a_ws_items_pairs; [exact Hip| |]; intros f Hf; [apply (Hok b f Hb Hf)|apply (Hok a f Ha Hf)].
+    - intros its Hi. apply a_ws_items_term_idem; [exact Hce| |].
+      + intros f Hf. apply (Hst its f Hi Hf).
+      + intros f g Hf Hg. apply (Hie its f g Hi Hf Hg).
+  Qed.
+
+  Theorem std_ws_idem l : doc_fields_ok fmt l -> stable_on l ->
+    pair_cmp_consistent ecmp -> para_cmp_consistent pcmp -> ecmp_invariant_on l -> pcmp_invariant_on l ->
+    std_ws (ltree_of (a_std l)) = Ok (ltree_of (a_std l)).
+  Proof.
+    intros Hok Hst Hce Hcp Hie Hip. rewrite std_ws_commute.
+    - rewrite (a_std_idem l Hok Hst Hce Hcp Hie Hip). reflexivity.
+    - apply fields_ok_a_std; [exact Hok|]. intros its f Hi Hf. apply (Hst its f Hi Hf).
+  Qed.
+End Top.
